@@ -282,3 +282,120 @@ func (c *Ctx) implementers(cc *ssa.CallCommon) []*ssa.Function {
 	}
 	return out
 }
+
+// ---- roles of package-level option variables -------------------------------------
+// The option globals are identified by the exported setter that stores them (the
+// setters are the package's API, used by the CLI and by the tests), never by their own
+// spelling: renaming `redactNumbers` does not disturb a rule.
+
+var setterRoles = map[string]string{
+	"SetRedactedString":       "redactedString",
+	"SetRedactNumbers":        "redactNumbers",
+	"SetRedactBooleans":       "redactBooleans",
+	"SetRedactIPs":            "redactIPs",
+	"SetEagerRedactionPaths":  "eagerRedactionPaths",
+	"SetEncryptionKey":        "encryptionKey",
+	"SetShouldEncrypt":        "shouldEncrypt",
+	"SetRedactNamespaces":     "redactNamespaces",
+	"SetRedactedFieldsRegexp": "redactedFieldsRegexp",
+	"SetAtlasLogStartDate":    "atlasLogStartDate",
+	"SetAtlasLogEndDate":      "atlasLogEndDate",
+}
+
+var roleCache = map[*Ctx]map[*ssa.Global]string{}
+
+func (c *Ctx) globalRoles() map[*ssa.Global]string {
+	if m, ok := roleCache[c]; ok {
+		return m
+	}
+	m := map[*ssa.Global]string{}
+	for setter, role := range setterRoles {
+		f := c.Fn(setter)
+		if f == nil {
+			continue
+		}
+		allInstrs(f, func(i ssa.Instruction) {
+			if st, ok := i.(*ssa.Store); ok {
+				if g, ok := st.Addr.(*ssa.Global); ok && g.Pkg == c.SPkg {
+					m[g] = role
+				}
+			}
+		})
+	}
+	roleCache[c] = m
+	return m
+}
+
+// roleName: the canonical role of an option global, or its own name.
+func (c *Ctx) roleName(g *ssa.Global) string {
+	if r, ok := c.globalRoles()[g]; ok {
+		return r
+	}
+	return g.Name()
+}
+
+// GlobalByRole finds the option global with the given role (falls back to the name).
+func (c *Ctx) GlobalByRole(role string) *ssa.Global {
+	for g, r := range c.globalRoles() {
+		if r == role {
+			return g
+		}
+	}
+	return c.GlobalVar(role)
+}
+
+// parserFn: the recursive parser - the package function the parser entry point calls
+// with a *json.Decoder.
+func (c *Ctx) parserFn() *ssa.Function {
+	un := c.Fn("UnmarshalOrdered")
+	if un == nil {
+		return nil
+	}
+	var out *ssa.Function
+	allInstrs(un, func(i ssa.Instruction) {
+		if call, ok := i.(*ssa.Call); ok {
+			if callee := c.staticPkgCallee(&call.Call); callee != nil {
+				for _, prm := range callee.Params {
+					if strings.HasSuffix(prm.Type().String(), "encoding/json.Decoder") {
+						out = callee
+					}
+				}
+			}
+		}
+	})
+	return out
+}
+
+// roleConstruct rewrites the function names in an obligation key to role labels for
+// the functions that are identified by role (the recursive parser, the stage walker), so
+// that a frozen exception keeps matching after a rename of an unexported function.
+func (c *Ctx) roleConstruct(construct string) string {
+	if pf := c.parserFn(); pf != nil {
+		construct = strings.ReplaceAll(construct, pf.Name(), "<parser>")
+	}
+	if sw := c.stageWalkerFn(); sw != nil {
+		construct = strings.ReplaceAll(construct, sw.Name(), "<stage-walker>")
+	}
+	return construct
+}
+
+// stageWalkerFn: the pipeline-stage walker - the package function on the line path whose
+// first parameter and single result are both the empty interface.
+func (c *Ctx) stageWalkerFn() *ssa.Function {
+	root := c.Fn("RedactMongoLog")
+	if root == nil {
+		return nil
+	}
+	var out *ssa.Function
+	for f := range c.pkgReach(root) {
+		if len(f.Params) == 0 || f.Signature.Results().Len() != 1 {
+			continue
+		}
+		if isEmptyInterface(f.Params[0].Type()) && isEmptyInterface(f.Signature.Results().At(0).Type()) {
+			if out == nil || fnKey(f) < fnKey(out) {
+				out = f
+			}
+		}
+	}
+	return out
+}
